@@ -185,16 +185,55 @@ func (ci *consumerInfo) successReturn(b *ssa.BasicBlock) bool {
 	return true
 }
 
-// isSuccessReturn: a return whose first result is not the constant nil / false.
+// isSuccessReturn: a return that does not signal failure. With a bool among the results (the last one is the
+// verdict: `return x, true`) failure is the constant false there; otherwise failure is a constant nil/false first result.
 func isSuccessReturn(b *ssa.BasicBlock) bool {
 	r, ok := b.Instrs[len(b.Instrs)-1].(*ssa.Return)
 	if !ok || len(r.Results) == 0 {
 		return ok
 	}
+	if vi := verdictIndex(b.Parent()); vi >= 0 && len(r.Results) > 1 {
+		if c, isC := r.Results[vi].(*ssa.Const); isC && c.Value != nil && c.Value.Kind() == constant.Bool && !constant.BoolVal(c.Value) {
+			return false
+		}
+		return true
+	}
 	if c, isC := r.Results[0].(*ssa.Const); isC && (c.IsNil() || (c.Value != nil && c.Value.Kind() == constant.Bool && !constant.BoolVal(c.Value))) {
 		return false
 	}
 	return true
+}
+
+// verdictIndex: the index of the last bool result of a multi-result function (-1 if none).
+func verdictIndex(fn *ssa.Function) int {
+	rs := fn.Signature.Results()
+	if rs.Len() < 2 {
+		return -1
+	}
+	for i := rs.Len() - 1; i >= 0; i-- {
+		if isBoolT(rs.At(i).Type()) {
+			return i
+		}
+	}
+	return -1
+}
+
+// verdictCall: cond is the bool verdict of a call — the call itself (single bool result) or the extraction of the
+// verdict component of a tuple result.
+func verdictCall(cond ssa.Value) *ssa.Call {
+	switch x := cond.(type) {
+	case *ssa.Call:
+		if isBoolT(x.Type()) {
+			return x
+		}
+	case *ssa.Extract:
+		if c, ok := x.Tuple.(*ssa.Call); ok {
+			if sc := c.Call.StaticCallee(); sc != nil && verdictIndex(sc) == x.Index {
+				return c
+			}
+		}
+	}
+	return nil
 }
 
 // consumerPoints: instructions after which input has been consumed, and blocks
@@ -229,17 +268,19 @@ func (ci *consumerInfo) calleesOf(c ssa.CallInstruction) []*ssa.Function {
 // an expectPeek/onOK bool result, or the non-nil edge of an onOK call result.
 func (ci *consumerInfo) edgeConsumes(pred, succ *ssa.BasicBlock) bool {
 	for _, f := range expandFacts(edgeFact(pred, succ)) {
+		if vc := verdictCall(f.Cond); vc != nil {
+			if f.Holds && ci.okPoint(vc) {
+				return true
+			}
+			if !f.Holds && ci.failPoint != nil && ci.failPoint(vc) {
+				return true
+			}
+			if sc := vc.Call.StaticCallee(); sc != nil && ci.onOK[sc] && f.Holds {
+				return true
+			}
+			continue
+		}
 		switch c := f.Cond.(type) {
-		case *ssa.Call:
-			if f.Holds && ci.okPoint(c) {
-				return true
-			}
-			if !f.Holds && ci.failPoint != nil && ci.failPoint(c) {
-				return true
-			}
-			if sc := c.Call.StaticCallee(); sc != nil && ci.onOK[sc] && f.Holds && isBoolT(c.Type()) {
-				return true
-			}
 		case *ssa.BinOp:
 			if c.Op != token.EQL && c.Op != token.NEQ {
 				continue
